@@ -282,7 +282,7 @@ func lower(doc Doc, l Layout) []symObj {
 				chain = l.Filters[streamNo%len(l.Filters)]
 			}
 			streamNo++
-			add(cid, &Stream{Data: part, Chain: chain, Pred: l.Predictor, Pred2: l.Predictor && l.TIFFPred, Array1: l.FilterArray1})
+			add(cid, &Stream{Data: part, Chain: chain, Pred: l.Predictor, Pred2: l.Predictor && l.TIFFPred, PredColors: l.PredColors, Array1: l.FilterArray1})
 			refs = append(refs, Ref(cid))
 		}
 		switch {
